@@ -135,10 +135,11 @@ class Evaluator:
     """Evaluates pure integer/boolean expressions of the mini-AST.
     env: {local id or param name: value}; tables: callable(qualified name) -> list of ints (or None)."""
 
-    def __init__(self, env=None, tables=None, hooks=None):
+    def __init__(self, env=None, tables=None, hooks=None, consts=None):
         self.env = env or {}
         self.tables = tables
         self.hooks = hooks or {}
+        self.consts = consts   # callable(qualified name) -> int | None, for static constants whose initialiser another unit holds
 
     def ev(self, e):
         k = e['k']
@@ -156,6 +157,10 @@ class Evaluator:
                 raise Unsupported('unbound ' + e['n'])
             if 'cv' in e:
                 return e['cv']
+            if self.consts is not None and e.get('q'):
+                v = self.consts(e['q'])
+                if v is not None:
+                    return v
             raise Unsupported('ref ' + e['n'])
         if k == 'Member':
             if 'cv' in e:
